@@ -40,7 +40,9 @@ func omitEmpty(data any, p tree.Path) any {
 		}
 		return v
 	case []any:
-		var c []any
+		// an empty sequence must stay an empty sequence: a nil slice is rendered as null, which the
+		// schema validation of the next file or document rejects ("must be a list")
+		c := make([]any, 0, len(v))
 		for _, e := range v {
 			if isEmpty(e) && mustOmit(p) {
 				continue
